@@ -26,6 +26,14 @@ impl<T: Send + Sync> Drop for ConIterOfVec<T> {
         if current <= self.vec_len {
             let _remaining_vec_to_be_dropped = unsafe { self.split_off_right(current) };
         }
+
+        // releases the buffer of the vector:
+        // all of its elements are either moved out or dropped as the remaining vector above
+        let vec = unsafe { &mut *self.vec.get() };
+        unsafe {
+            vec.set_len(0);
+            ManuallyDrop::drop(vec);
+        }
     }
 }
 
